@@ -670,3 +670,401 @@ def r04j(R):
     R.check(cv, 'cycle: full turn pushed as %s' % pushed, pushed == [360, 65536],
             'the full turn a cycle is spread over must be 360 (logical) or '
             '65536 (raw)')
+
+
+MATH = 'bardolph.runtime.bardolph_math'
+JOBS = 'bardolph.lib.job_control'
+IOPARSER = 'bardolph.parser.io_parser'
+PARSE = 'bardolph.parser.parse'
+MPARSE = 'bardolph.parser.matrix_parser'
+
+
+def _window(A, f, test):
+    """interval [lo, hi) or [lo, inf) / (-inf, hi) a conjunction of
+    comparisons of one variable with constants describes: (lo, lo_incl, hi,
+    hi_incl) with None for an open side; None when it is something else."""
+    parts = test.values if isinstance(test, ast.BoolOp) and \
+        isinstance(test.op, ast.And) else [test]
+    lo = hi = None
+    lo_incl = hi_incl = None
+    for c in parts:
+        if not isinstance(c, ast.Compare):
+            return None
+        comps = [c.left] + c.comparators
+        for i, op in enumerate(c.ops):
+            l, r = A.try_fold(comps[i], f), A.try_fold(comps[i + 1], f)
+            if isinstance(r, (int, float)) and not isinstance(l, (int, float)):
+                if isinstance(op, (ast.Lt, ast.LtE)):
+                    hi, hi_incl = r, isinstance(op, ast.LtE)
+                elif isinstance(op, (ast.Gt, ast.GtE)):
+                    lo, lo_incl = r, isinstance(op, ast.GtE)
+                else:
+                    return None
+            elif isinstance(l, (int, float)) and not isinstance(r, (int, float)):
+                if isinstance(op, (ast.Lt, ast.LtE)):
+                    lo, lo_incl = l, isinstance(op, ast.LtE)
+                elif isinstance(op, (ast.Gt, ast.GtE)):
+                    hi, hi_incl = l, isinstance(op, ast.GtE)
+                else:
+                    return None
+            else:
+                return None
+    return lo, lo_incl, hi, hi_incl
+
+
+@rule('R02.i', ('C02', 'C16'), 'built-in functions: the documented domain '
+      'tests; only functions marked as built-ins are registered', floor=3,
+      decides='`[sqrt x]` is the root for every x >= 0 (else -1), `[cycle a]` '
+              'leaves 0 <= a < 360 alone and wraps everything else; a name is '
+              'taken only by a real built-in')
+def r02i(R):
+    A = R.A
+    sq = A.func(MATH, 'sqrt')
+    rets = [n for n in walk_own(sq.node) if isinstance(n, ast.Return)]
+    ok = False
+    if len(rets) == 1 and isinstance(rets[0].value, ast.IfExp):
+        e = rets[0].value
+        w = _window(A, sq, e.test)
+        root_first = 'math.sqrt' in norm(e.body)
+        other = A.try_fold(e.orelse if root_first else e.body, sq, 'x')
+        if w is not None:
+            lo, lo_incl, hi, hi_incl = w
+            if root_first:
+                ok = lo == 0 and lo_incl is True and hi is None and other == -1
+            else:
+                ok = hi == 0 and hi_incl is False and lo is None and other == -1
+    R.check(sq, 'sqrt(x) = math.sqrt(x) if x >= 0 else -1', ok,
+            'the square root is not taken for exactly the non-negative '
+            'arguments (or the error value is not -1): e.g. [sqrt 0] gives -1')
+    cy = A.func(MATH, 'cycle')
+    rets = [n for n in walk_own(cy.node) if isinstance(n, ast.Return)]
+    ok = False
+    if len(rets) == 1 and isinstance(rets[0].value, ast.IfExp):
+        e = rets[0].value
+        w = _window(A, cy, e.test)
+        p = cy.params[0]
+        if w is not None:
+            lo, lo_incl, hi, hi_incl = w
+            ident, wrap = e.body, e.orelse
+            ok = lo == 0 and lo_incl is True and hi == 360 and hi_incl is False \
+                and norm(ident) == p and isinstance(wrap, ast.BinOp) \
+                and isinstance(wrap.op, ast.Mod) and norm(wrap.left) == p \
+                and A.try_fold(wrap.right, cy) == 360
+    R.check(cy, 'cycle(a) = a if 0 <= a < 360 else a % 360', ok,
+            'cycle does not leave exactly 0 <= a < 360 unchanged and reduce '
+            'everything else modulo 360: [cycle 360] must be 0, [cycle 0] the '
+            'integer 0')
+    ib = A.func('bardolph.runtime.bardolph_fn', 'is_builtin')
+    rets = [n for n in walk_own(ib.node) if isinstance(n, ast.Return)]
+    ok = False
+    if len(rets) == 1 and isinstance(rets[0].value, ast.IfExp):
+        e = rets[0].value
+        isfn = 'isfunction' in norm(e.test)
+        marked, other = (e.body, e.orelse) if isfn else (e.orelse, e.body)
+        ok = 'hasattr' in norm(marked) and A.try_fold(other, ib, 'x') is False
+    elif len(rets) == 1 and isinstance(rets[0].value, ast.BoolOp) \
+            and isinstance(rets[0].value.op, ast.And):
+        t = norm(rets[0].value)
+        ok = 'isfunction' in t and 'hasattr' in t
+    R.check(ib, 'is_builtin: a function AND marked as built-in', ok,
+            'objects that are not marked functions are registered as built-in '
+            'routines: their names (math, builtins ...) can no longer be '
+            'defined by a script')
+
+
+@rule('R08.g', ('C08', 'C09', 'C20'), 'an agent keeps the name it was given; '
+      'it is running while its thread is alive; the controller has jobs '
+      'while anything is queued, active or in the background', floor=3,
+      decides='jobs are found under the name they were started with; a stop '
+              'reaches a job that runs')
+def r08g(R):
+    A = R.A
+    ag = A.cls(JOBS, 'Agent')
+    init = ag.methods['__init__']
+    pname = [p for p in init.params if p == 'name']
+    ok = False
+    for n in walk_own(init.node):
+        if isinstance(n, ast.Assign) and self_attr(n.targets[0]) in ('_name', 'name'):
+            v = n.value
+            if isinstance(v, ast.BoolOp) and isinstance(v.op, ast.Or) \
+                    and norm(v.values[0]) == 'name':
+                ok = True
+            elif isinstance(v, ast.IfExp) or norm(v) == 'name':
+                ok = norm(v).startswith('name')
+    R.check(init, 'Agent name = name or <generated>', ok and bool(pname),
+            'the agent does not keep the name it is given (it is replaced by '
+            'the generated one): is_running / stop by name never find the job')
+    ir = ag.methods['is_running']
+    rets = [r for r in A.cfg(ir).return_nodes() if r.ret_expr is not None]
+    alive = [r for r in rets if 'is_alive' in norm(r.ret_expr)]
+    ok = bool(alive) and all(('self._thread is None', False) in A.path_facts(ir, r)
+                             for r in alive)
+    R.check(ir, 'Agent.is_running: thread exists and is alive', ok,
+            'Agent.is_running does not answer "a thread exists and is alive": '
+            'stop-current finds nothing to stop')
+    hj = A.func(JOBS, 'JobControl.has_jobs')
+    consts = []
+    for n in walk_own(hj.node):
+        if isinstance(n, ast.Compare) and isinstance(n.left, ast.Call) \
+                and norm(n.left.func) == 'len':
+            consts.append((type(n.ops[0]).__name__, A.try_fold(n.comparators[0], hj, 'x')))
+    R.check(hj, 'has_jobs: len(...) > 0 for the queue and the background table',
+            len(consts) == 2 and all(c in (('Gt', 0), ('NotEq', 0), ('GtE', 1))
+                                     for c in consts),
+            'has_jobs does not count a single queued / background job')
+
+
+@rule('R19.h', ('C19', 'C06'), 'printf requires a non-empty format; an output '
+      'operand is followed by a literal only when one was asked for', floor=2,
+      decides='positional fields take the following values in order')
+def r19h(R):
+    A = R.A
+    pf = A.func(IOPARSER, 'IoParser.printf')
+    empties = [n for n in A.cfg(pf).nodes if n.kind == 'cond'
+               and isinstance(n.ast, ast.Compare) and isinstance(n.ast.left, ast.Call)
+               and norm(n.ast.left.func) == 'len']
+    ok = len(empties) == 1 and A.try_fold(empties[0].ast.comparators[0], pf, 'x') == 0 \
+        and isinstance(empties[0].ast.ops[0], ast.Eq)
+    R.check(pf, 'printf: format rejected only if it is empty', ok,
+            'the length test on the format string is not "== 0": one-character '
+            'formats are rejected')
+    orv = A.func(IOPARSER, 'IoParser._out_rvalue')
+    end = [p for p in orv.params if p not in ('self',)]
+    lits = []
+    for call, ops in A.emission_sites(orv):
+        for o, a in ops:
+            if o == 'OUT' and a and getattr(A.try_fold(a[0], orv), 'member', None) == 'LITERAL':
+                lits += A.node_of_call(orv, call)
+    ok = all(end and ('%s is None' % end[0], False) in A.path_facts(orv, n)
+             for n in lits)
+    R.check(orv, 'OUT LITERAL only when a terminator was given', ok,
+            'every output operand is followed by a spurious literal None: '
+            'printf fields are filled with None')
+
+
+@rule('R06.l', ('C06', 'C15', 'C01'), 'operands that may not be registers are '
+      'parsed with registers excluded; a quoted value goes to the name '
+      'register only; a name may be one character long', floor=5,
+      decides='documented restrictions are enforced at compile time and '
+              'every well-formed operand is accepted')
+def r06l(R):
+    A = R.A
+    # zone / row / column values: at_rvalue(False)
+    for modname, fname in ((PARSE, 'Parser._set_zones'), (PARSE, 'Parser._range'),
+                           (MPARSE, 'MatrixParser._rows'),
+                           (MPARSE, 'MatrixParser._columns'),
+                           (MPARSE, 'MatrixParser._range')):
+        f = A.func(modname, fname)
+        probes = [c for c in A.calls_in(f) if isinstance(c.func, ast.Attribute)
+                  and c.func.attr in ('at_rvalue', '_at_rvalue')]
+        if not probes:
+            raise AnalysisError('%s: at_rvalue probe not found' % fname)
+        for c in probes:
+            arg = c.args[0] if c.args else next(
+                (k.value for k in c.keywords if k.arg == 'include_reg'), None)
+            R.check(f, c, arg is not None and A.try_fold(arg, f, 'x') is False,
+                    'a zone / row / column value is probed with registers '
+                    'allowed: `set "S" zone 3` followed by `hue 5` takes the '
+                    'register for the end of the range, or `row hue` compiles',
+                    line=c.lineno)
+    for modname, fname in ((PARSE, 'Parser._range'), (MPARSE, 'MatrixParser._range')):
+        f = A.func(modname, fname)
+        d = f.node.args.defaults
+        R.check(f, '%s(only_one=False)' % fname,
+                len(d) == 1 and isinstance(d[0], ast.Constant) and d[0].value is False,
+                'ranges take only one value by default: `zone a b` is rejected')
+    sr = A.func(PARSE, 'Parser._string_to_reg')
+    em = [n for call, ops in A.emission_sites(sr) for o, a in ops if o == 'MOVEQ'
+          for n in A.node_of_call(sr, call)]
+    reg = sr.params[1]
+    eq = '%s == %s' % tuple(sorted((reg, 'Register.NAME')))
+    ok = bool(em) and all(
+        (eq, True) in A.path_facts(sr, n)
+        or ('%s is %s' % tuple(sorted((reg, 'Register.NAME'))), True) in A.path_facts(sr, n)
+        for n in em)
+    R.check(sr, 'a quoted value is stored only in the name register', ok,
+            'a quoted string is accepted as the value of a numeric register '
+            '(hue "abc"): the script compiles and the VM faults')
+    op = A.func(PARSE, 'Parser._operand')
+    lens = [n for n in A.cfg(op).nodes if n.kind == 'cond' and isinstance(n.ast, ast.Compare)
+            and isinstance(n.ast.left, ast.Call) and norm(n.ast.left.func) == 'len']
+    ok = len(lens) == 1 and (
+        (isinstance(lens[0].ast.ops[0], ast.Gt)
+         and A.try_fold(lens[0].ast.comparators[0], op, 'x') == 0)
+        or (isinstance(lens[0].ast.ops[0], ast.GtE)
+            and A.try_fold(lens[0].ast.comparators[0], op, 'x') == 1)
+        or (isinstance(lens[0].ast.ops[0], ast.NotEq)
+            and A.try_fold(lens[0].ast.comparators[0], op, 'x') == 0))
+    R.check(op, 'a light name of any length > 0 is an operand', ok,
+            'one-character light names are not accepted as operands')
+    # WAIT before an action unless it is staged inside a matrix
+    ac = A.func(PARSE, 'Parser._action')
+    cfg = A.cfg(ac)
+    waits = A.emit_nodes(ac, 'WAIT')
+    ok = bool(waits)
+    for n in waits:
+        facts = A.path_facts(ac, n)
+        ok = ok and ('self._context.in_matrix()', False) in facts and any(
+            'STAGE' in t and truth is False for t, truth in facts)
+    R.check(ac, 'WAIT unless in a matrix block or staging', ok,
+            'the delay before an action is also emitted for stages (inside '
+            'routines): a matrix built from several stages waits once per '
+            'stage instead of once')
+
+
+@rule('R20.k', ('C20',), 'pages are rendered from the script entry; a missing '
+      'entry stops nothing; the manifest is read when there is one; `off` '
+      'runs its script', floor=8,
+      decides='routes render without error for listed paths; stop acts on '
+              'the named job; scripts run queued unless marked background')
+def r20k(R):
+    A = R.A
+    fe = A.cls(FRONT, 'FrontEnd')
+    n = 0
+    for m in fe.methods.values():
+        for c in A.calls_in(m):
+            if 'FrontEnd.render_action' in A.callee_names(m, c) and len(c.args) == 2:
+                n += 1
+                R.check(m, c, isinstance(c.args[0], ast.Name)
+                        and isinstance(A.try_fold(c.args[1], m, None), str),
+                        'render_action(%s, %s): the script entry and the '
+                        'message are exchanged - the page raises instead of '
+                        'rendering' % (norm(c.args[0]), norm(c.args[1])),
+                        line=c.lineno)
+    if n < 4:
+        raise AnalysisError('R20.k: only %d render_action calls found' % n)
+    # WebApp.stop_script: an unknown path stops nothing, a known one is stopped
+    ss = A.func(WEBAPP, 'WebApp.stop_script')
+    cfg = A.cfg(ss)
+    stops = A.calls_nodes(ss, 'JobControl.stop_job')
+    var = None
+    for s in walk_own(ss.node):
+        if isinstance(s, ast.Assign) and isinstance(s.value, ast.Call) \
+                and isinstance(s.value.func, ast.Attribute) and s.value.func.attr == 'get' \
+                and '_scripts' in norm(s.value.func.value):
+            var = norm(s.targets[0])
+    ok = var is not None and bool(stops) and all(
+        ('%s is None' % var, False) in A.path_facts(ss, x) for x in stops)
+    p = None
+    if ok:
+        tests = [t for t in cfg.nodes if t.kind == 'cond'
+                 and A.canonical_atom(t.ast)[0] == '%s is None' % var]
+        for t in tests:
+            _txt, pol = A.canonical_atom(t.ast)
+            starts = [x for x, lab in t.succs if lab is not pol]
+            p = cfg.find_path(starts, lambda x: x is cfg.exit, avoid=stops)
+            ok = ok and p is None
+    R.check(ss, 'stop_script: known entry -> stop_job(entry.path); unknown -> nothing',
+            ok, 'stop_script stops nothing for a listed path (or dereferences '
+            'a missing entry)', path=path_text(p) if p else None)
+    # the manifest is read whenever a file name is configured
+    lm = A.func(WEBAPP, 'WebApp._load_manifest')
+    lcfg = A.cfg(lm)
+    reads = [x for x in lcfg.nodes for c in x.calls() if norm(c.func) == 'json.load']
+    var = None
+    for s in walk_own(lm.node):
+        if isinstance(s, ast.Assign) and isinstance(s.value, ast.Call) \
+                and 'manifest_file_name' in norm(s.value):
+            var = norm(s.targets[0])
+    ok = var is not None and bool(reads) and all(
+        ('%s is None' % var, False) in A.path_facts(lm, x) for x in reads)
+    if ok:
+        tests = [t for t in lcfg.nodes if t.kind == 'cond'
+                 and A.canonical_atom(t.ast)[0] == '%s is None' % var]
+        for t in tests:
+            _txt, pol = A.canonical_atom(t.ast)
+            starts = [x for x, lab in t.succs if lab is not pol]
+            ok = ok and lcfg.find_path(starts, lambda x: x is lcfg.exit,
+                                       avoid=reads) is None
+    R.check(lm, 'manifest read iff a manifest file name is configured', ok,
+            'the manifest is not read when there is one (test reversed): no '
+            'script can be started')
+    rb = [c for c in A.calls_in(lm) if isinstance(c.func, ast.Attribute)
+          and c.func.attr == 'get' and c.args
+          and A.try_fold(c.args[0], lm, None) == 'run_background']
+    R.check(lm, 'run_background defaults to False',
+            len(rb) == 1 and len(rb[0].args) == 2
+            and A.try_fold(rb[0].args[1], lm, 'x') is False,
+            'an entry without a run_background flag is run in the background: '
+            'unmarked scripts run concurrently instead of queued')
+    # /off: the script listed for `off` is queued
+    off = A.func(FRONT, 'FrontEnd.off')
+    ocfg = A.cfg(off)
+    q = A.calls_nodes(off, 'WebApp.queue_script')
+    render = A.calls_nodes(off, 'FrontEnd.render_action')
+    ok = bool(q and render) and ocfg.find_path(
+        [ocfg.entry], lambda x: x in render, avoid=q) is None
+    R.check(off, 'off: queue_script before the action page', ok,
+            'the off route renders its page without starting the off script')
+
+
+@rule('R07.e', ('C07', 'C14'), 'rgb -> raw: each HSV component (0..1) is '
+      'scaled by exactly 65535, clamped to 0..65535 and rounded', floor=1,
+      decides='rgb colours are transmitted as the exact 16-bit values of '
+              'their hue, saturation and brightness')
+def r07e(R):
+    A = R.A
+    f = A.func('bardolph.controller.units', 'rgb_to_raw')
+    # the scaling expression: a lambda or a helper applied to h, s, v
+    bodies = []
+    for n in walk_own(f.node):
+        if isinstance(n, ast.Lambda) and len(n.args.args) == 1:
+            bodies.append((n.args.args[0].arg, n.body))
+    for c in A.calls_in(f):
+        for g in A.callees(f, c):
+            if g.module is f.module and g.name.startswith('_') and len(g.params) == 1:
+                rets = [x for x in walk_own(g.node) if isinstance(x, ast.Return)]
+                if len(rets) == 1 and rets[0].value is not None:
+                    bodies.append((g.params[0], rets[0].value))
+    ok = False
+    found = None
+    for p, body in bodies:
+        muls = [x for x in ast.walk(body) if isinstance(x, ast.BinOp)
+                and isinstance(x.op, ast.Mult)
+                and p in (norm(x.left), norm(x.right))]
+        if len(muls) != 1:
+            continue
+        k = A.try_fold(muls[0].right if norm(muls[0].left) == p else muls[0].left, f)
+        caps = [A.try_fold(a, f, None) for x in ast.walk(body)
+                if isinstance(x, ast.Call) and norm(x.func) in ('min', 'max')
+                for a in x.args]
+        caps = sorted(c for c in caps if isinstance(c, (int, float)))
+        found = (k, caps)
+        ok = k == 65535 and caps == [0, 65535] and any(
+            isinstance(x, ast.Call) and norm(x.func) == 'round' for x in ast.walk(body))
+    R.check(f, 'rgb_to_raw: round(clamp(x * 65535, 0, 65535)) (found %s)' % (found,),
+            ok, 'the HSV components of an rgb colour are not scaled by exactly '
+            '65535 / clamped to 0..65535 / rounded')
+
+
+@rule('R06.m', ('C06',), 'a token without text never equals a piece of text',
+      floor=1,
+      decides='closing braces, brackets and parentheses must really be there: '
+              'the end of input or a keyword is not taken for them')
+def r06m(R):
+    A = R.A
+    eq = A.func('bardolph.parser.token', 'Token.__eq__')
+    cfg = A.cfg(eq)
+    is_str = [t for t in cfg.nodes if t.kind == 'cond' and isinstance(t.ast, ast.Call)
+              and norm(t.ast.func) == 'isinstance' and len(t.ast.args) == 2
+              and norm(t.ast.args[1]) == 'str']
+    ok = bool(is_str)
+    n_ret = 0
+    for r in cfg.return_nodes():
+        facts = A.path_facts(eq, r)
+        if (norm(is_str[0].ast), True) not in facts if is_str else True:
+            continue
+        n_ret += 1
+        has = [t for t in facts if 'has_string()' in t[0]]
+        if has and has[0][1] is False:
+            # no text: must answer False
+            if not (isinstance(r.ret_expr, ast.Constant) and r.ret_expr.value is False):
+                ok = False
+        elif has and has[0][1] is True:
+            if 'content' not in norm(r.ret_expr):
+                ok = False
+    R.check(eq, 'Token == str: content compared iff the token has text, else False',
+            ok and n_ret >= 2,
+            'a token that has no text of its own compares equal to a string: '
+            'the end of input passes for `}` / `]` / `)` and unterminated '
+            'expressions are accepted')
